@@ -476,9 +476,9 @@ fn enumerate_decoder(d: &Decoder, tier: Tier) -> Acc {
             acc.nontrivial += 1;
         }
         // pairs of edits: second edit over the small value pool
-        let step = tier.pick(if firsts.len() > 1500 { 23 } else { 5 }, 1);
+        let step = tier.pick(if firsts.len() > 1500 { 23 } else { 5 }, if firsts.len() > 1500 { 4 } else { 1 });
         for e in firsts.iter().step_by(step) {
-            for e2 in edits(e, tier.pick(&SMALL_VALUES[..4], SMALL_VALUES), false).iter().step_by(tier.pick(3, 1)) {
+            for e2 in edits(e, tier.pick(&SMALL_VALUES[..4], SMALL_VALUES), false).iter().step_by(tier.pick(3, 2)) {
                 convert(d, e2, base_bin, &mut acc, false);
                 acc.field_lists += 1;
                 acc.nontrivial += 1;
